@@ -7,7 +7,7 @@ From Coq Require Import ZArith.
 
 (* ---- handler programs the harness runs on both sides ---- *)
 
-Inductive hret := RNil | REOF | RStream (c : bytes) | ROther.
+Inductive hret := RNil | REOF | RStream (c : bytes) | ROther | RWrapEOF.
 
 Inductive hop :=
 | ORead (n : nat) (stop : bool)  (* n Token() calls, results ignored; with stop: the op ends at the first error *)
@@ -22,6 +22,7 @@ Definition ret_err (r : hret) : option err :=
   | REOF => Some EEOF
   | RStream c => Some (EStreamErr c)
   | ROther => Some EHandler
+  | RWrapEOF => Some EWrapEOF
   end.
 
 Fixpoint c_read (n : nat) (stop : bool) (k : handler) : handler :=
@@ -149,6 +150,8 @@ Definition perr : P (option err) :=
   | 12 => pret (Some EInvalidPayload)
   | 13 => pret (Some EHandler)
   | 14 => pret (Some EOther)
+  | 15 => pret (Some EWrapEOF)
+  | 16 => pret (Some EOutClosed)
   | _ => pfail
   end.
 
@@ -169,6 +172,7 @@ Definition phret : P hret :=
   | 1 => pret REOF
   | 2 => c <- pstr ;; pret (RStream c)
   | 3 => pret ROther
+  | 4 => pret RWrapEOF
   | _ => pfail
   end.
 
@@ -206,7 +210,7 @@ Record mreg := mkmreg { mr_type : bytes; mr_payload : name; mr_prog : list hop }
 Definition pmreg : P mreg := t <- pstr ;; n <- pname ;; p <- pprog ;; pret (mkmreg t n p).
 
 (* case :=
-     ws ns own from  njid jid^n  script:toks
+     ws oclosed ns own from  njid jid^n  script:toks
      mode (0 programs | 1 mux)
        mode 0: nprog prog^n
        mode 1: fixed nreg mreg^n
@@ -217,7 +221,7 @@ Record scase := mkscase {
   o_ret : option err; o_closed : bool; o_invs : list oinv; o_wire : list token }.
 
 Definition pcase : P scase :=
-  ws <- pbool ;; ns <- pstr ;; own <- pstr ;; from <- pstr ;;
+  ws <- pbool ;; oc <- pbool ;; ns <- pstr ;; own <- pstr ;; from <- pstr ;;
   nj <- pbyte ;; jids <- prep nj pjid ;;
   script <- ptoks ;;
   mode <- pbyte ;;
@@ -226,7 +230,7 @@ Definition pcase : P scase :=
   ret <- perr ;; closed <- pbool ;;
   ni <- pbyte ;; invs <- prep ni poinv ;;
   wire <- ptoks ;;
-  pret (mkscase (mkcfg ws ns own (jp_of jids)) from script mode progs fixed regs ret closed invs wire).
+  pret (mkscase (mkcfg ws ns own (jp_of jids) oc) from script mode progs fixed regs ret closed invs wire).
 
 Definition parse_case (b : bytes) : option scase :=
   match pcase b with
@@ -247,7 +251,7 @@ Definition outcome_ok (c : scase) (r : sres) : bool :=
   oerr_match (s_ret r) (o_ret c)
   && o_closed c
   && list_eqb inv_match (s_invs r) (o_invs c)
-  && list_eqb token_match (wire_of (c_ns (k_cfg c)) (k_from c) (written r)) (o_wire c).
+  && list_eqb token_match (if c_oclosed (k_cfg c) then [] else wire_of (c_ns (k_cfg c)) (k_from c) (written r)) (o_wire c).
 
 Definition case_ok8 (b : bytes) : bool :=
   match parse_case b with
@@ -289,7 +293,7 @@ Definition outcome_ok_p (c : scase) (divs : list odiv) (r : sres_p) : bool :=
   && o_closed c
   && list_eqb inv_match (invs_of (sp_events r)) (o_invs c)
   && list_eqb div_match (divs_of (sp_events r)) divs
-  && list_eqb token_match (wire_of (c_ns (k_cfg c)) (k_from c) (written_p r)) (o_wire c).
+  && list_eqb token_match (if c_oclosed (k_cfg c) then [] else wire_of (c_ns (k_cfg c)) (k_from c) (written_p r)) (o_wire c).
 
 (* in a harness run nobody else touches the table while Serve runs *)
 Definition env_id (k : nat) (tb : ptable) : ptable := tb.
